@@ -84,6 +84,27 @@ func runC16One(f *irFunc) (c c16Case, unbalanced []string) {
 	}
 	b = newIRBuild(nil)
 	scopes[b.cb.Scope()] = 0
+	// "whichever files are current": the current file is switched between operations (a function of
+	// the source text, so a case replays exactly); no operation may change it, and the machine state
+	// is compared after every operation as before (C16.Files: file switches commute with every step)
+	fseed := uint32(2166136261)
+	for i := 0; i < len(c.Src); i++ {
+		fseed = (fseed ^ uint32(c.Src[i])) * 16777619
+	}
+	curFile := ""
+	plain := after
+	after = func(op string) {
+		if curFile != "" && b.pkg.CurFile().Name() != curFile {
+			unbalanced = append(unbalanced, fmt.Sprintf("current file changed by %s: %s, was set to %s", op, b.pkg.CurFile().Name(), curFile))
+			curFile = b.pkg.CurFile().Name()
+		}
+		plain(op)
+		fseed = fseed*1664525 + 1013904223
+		if fseed>>28 < 5 { // switch before about a third of the operations
+			curFile = fmt.Sprintf("file%d.go", (fseed>>20)%3)
+			b.pkg.SetCurFile(curFile, true)
+		}
+	}
 	b.after = after
 	b.labelNames = allLabels
 	b.balance = func(kind string, ok bool) {
